@@ -79,22 +79,14 @@ theorem quiescent_src_none {s : Sys} (h : MigInv s) (hq : Quiescent s) : s.src =
 
 /-- decidable form of `GoodStep` -/
 def goodB (s : Sys) : Label → Bool
-  | .inv _ _ c => !c.deletes || c.blocking
   | .commit .D => (critDump s).isNone
   | _ => true
 
 theorem goodStep_of_goodB {s : Sys} {l : Label} (h : goodB s l = true) : GoodStep s l := by
-  constructor
-  · intro id p c hl hd
-    subst hl
-    simp only [goodB, Bool.or_eq_true, Bool.not_eq_true'] at h
-    rcases h with h | h
-    · rw [hd] at h; cases h
-    · exact h
-  · intro hl
-    subst hl
-    simp only [goodB, Option.isNone_iff_eq_none] at h
-    exact h
+  intro hl
+  subst hl
+  simp only [goodB, Option.isNone_iff_eq_none] at h
+  exact h
 
 /-- run a list of labels, refusing steps outside the hypotheses of the partial theorem -/
 def runLabelsG (s : Sys) : List Label → Option Sys
